@@ -304,6 +304,33 @@ def pair_events(v):
             else:
                 out.append(pair_event(law, fn, note, lambda fn=fn, Xs=Xs, ix=ix: _call(mp, fn, Xs, ix, mesh),
                                       lambda fn=fn, Xs=Xs, ix=ix, ax=ax: np.take(_call(mp, fn, Xs, None, mesh), ix, axis=ax)))
+    elif law == 'SubsetConstructorAgrees':
+        from skfem.mapping import MappingAffine
+        full = MappingAffine(mesh)
+        for spec in v['subsets']:
+            S = idx_array(spec)
+            sub = MappingAffine(mesh, tind=S)                 # one object per subset, all methods on it
+            tag = f"{spec['dtype']}{spec['ix']}"[:50]
+            for fn in ('F', 'DF', 'invDF', 'detDF', 'invF'):
+                for own in ('S', 'None'):                      # the method's own tind is ignored (documented)
+                    out.append(pair_event(law, fn, f'{tag}|tind={own}',
+                                          lambda fn=fn, own=own, S=S: _call(sub, fn, X, S if own == 'S' else None, mesh)
+                                          if fn != 'invF' else sub.invF(full.F(X, tind=S), tind=S if own == 'S' else None),
+                                          lambda fn=fn, S=S: _call(full, fn, X, S, mesh) if fn != 'invF'
+                                          else full.invF(full.F(X, tind=S), tind=S)))
+            if kind != 'line' or True:
+                Xf = np.array(XFACET[d - 1], dtype=np.float64).T / D if d > 1 else np.zeros((0, 1))
+                for k in range(mesh.t2f.shape[0]):             # the k-th local facet of every cell of the subset
+                    find = np.asarray(mesh.t2f[k, S], dtype=np.int64)
+                    Y = np.tile(X[:, None, :], (1, len(S), 1))
+                    out.append(pair_event(law, 'normals', f'{tag}|slot={k}',
+                                          lambda find=find, S=S: sub.normals(Y, S, find, mesh.t2f),
+                                          lambda find=find, S=S: full.normals(Y, S, find, mesh.t2f)))
+                    if d > 1:
+                        for fn in ('G', 'detDG'):
+                            out.append(pair_event(law, fn, f'{tag}|slot={k}',
+                                                  lambda fn=fn, find=find: _call(sub, fn, Xf, find, mesh),
+                                                  lambda fn=fn, find=find: _call(full, fn, Xf, find, mesh)))
     elif law == 'SharedVsPerCell':
         for step in v['steps']:
             fn = step['fn']
@@ -375,8 +402,42 @@ def refdom_event(v):
     return ev
 
 
+SURF_S = 2 ** 17
+
+
+def surfrel_event(v):
+    """detDG of every triangular facet of a tetrahedral mesh whose true coordinates are (x, y, z / 2^17) with small
+    integers x, y, z (a layer of thickness 2^-17: needle-shaped vertical facets), affine or isoparametric mapping.
+    Needle facets (integer cross product with zero third component) are logged as detDG * 2^17 (exact scaling)."""
+    ev = {'a': 'SurfRel', 'kind': 'tet', 'err': '', 'S': SURF_S, 'map': v['mapping'], 'p': [], 'facets': [], 'd': [], 'sc': []}
+
+    def call():
+        P = np.asarray(v['p'], dtype=np.float64)
+        Pt = P.copy()
+        Pt[2] = Pt[2] / SURF_S
+        mesh = U.make('tet', Pt, v['t'])
+        mp, _ = build_mapping(mesh, 'tet', v['mapping'])
+        Xf = np.array([[0.25], [0.5]])
+        dG = np.asarray(mp.detDG(Xf), dtype=np.float64)[:, 0]
+        Pi = np.asarray(v['p']).astype(int)
+        sc, d = [], []
+        for f in range(mesh.facets.shape[1]):
+            a, b, c = [Pi[:, i] for i in mesh.facets[:, f]]
+            cr = np.cross(b - a, c - a)
+            flag = 1 if int(cr[2]) == 0 else 0
+            sc.append(flag)
+            d.append(fx_req(float(dG[f]) * (SURF_S if flag else 1)))
+        ev.update(p=[[int(x) for x in col] for col in Pi.T], facets=ids(mesh.facets), d=d, sc=sc)
+    _, err = guarded(call, 60)
+    if err:
+        ev['err'] = err
+    return ev
+
+
 def execute(rec):
     v = rec['v']
+    if rec['driver'] == 'surfrel':
+        return [surfrel_event(v)]
     if rec['driver'] == 'refdom':
         ev = refdom_event(v)
         # the tables are the library's internal representation: if they are not there in this form (moved, renamed,
@@ -568,6 +629,14 @@ def generate(tier, seed):
                              'v': vrec(kind, p, t, mpn, law='SubsetCommutes', steps=steps)})
             steps = [{'fn': fn, 'idx': i} for fn in fns + ['invF'] for i in (idx(list(range(nt))), idx([nt - 1, 0]), None)]
             recs.append({'driver': 'pair', 'family': fam, 'v': vrec(kind, p, t, mpn, law='SharedVsPerCell', steps=steps)})
+        if kind in P1 and nt >= 3:
+            # mapping objects built for a cell subset: permutations of the first k cells, arbitrary subsets (any order),
+            # the whole mesh permuted, a single cell
+            k = max(2, nt // 2)
+            subsets = [idx(rng.permutation(k), 'int32'), idx(rng.permutation(nt)[:k]), idx(rng.permutation(nt), 'int32'),
+                       idx([nt - 1]), idx(sorted(int(c) for c in rng.permutation(nt)[:k]), 'int32')]
+            recs.append({'driver': 'pair', 'family': fam,
+                         'v': vrec(kind, p, t, 'affine', law='SubsetConstructorAgrees', subsets=subsets)})
         if kind in P1:
             steps = [{'fn': fn, 'idx': i} for fn in fns for i in index_sets(nt, rng, full_only=True)]
             if kind != 'line':
@@ -577,6 +646,25 @@ def generate(tier, seed):
             p2, t2 = perturb_numbering(kind, p, t, rng, flip=True)
             recs.append({'driver': 'pair', 'family': fam + '-mirrored',
                          'v': vrec(kind, p2, t2, 'default', law='AffineEqualsIsoparametric')})
+    # strongly anisotropic tetrahedra: integer coordinates whose third component is divided by 2^17 (thin layers);
+    # as generated, stretched, sheared in the plane (needle facets not axis-parallel), renumbered; both implementations
+    for (n, split) in ((1, 6), (1, 5), (2, 6)):
+        p, t = U.tet_cubes(n, split)
+        p, t = np.asarray(p), np.asarray(t)
+        # (odd stretch factors: with small dyadic data every intermediate of any formula is exact and nothing is tested)
+        shapes = [('', p)]
+        q = p * np.array([[11], [13], [5]])
+        q[0] = q[0] + q[1]
+        shapes.append(('-stretched-sheared', q))
+        q = p * np.array([[13], [11], [7]])
+        q[0] = q[0] + q[1]
+        q[1] = q[1] + q[0]
+        shapes.append(('-stretched-sheared2', q))
+        for suffix, pp in shapes:
+            p2, t2 = perturb_numbering('tet', pp, t, rng, flip=False)
+            for (pa, ta) in ((pp, t), (p2, t2)):
+                for mpn in ('affine', 'iso'):
+                    recs.append({'driver': 'surfrel', 'family': 'layer-2^-17' + suffix, 'v': vrec('tet', pa, ta, mpn)})
     for kind in ('line', 'tri', 'quad', 'tet', 'hex', 'wedge'):
         recs.append({'driver': 'refdom', 'family': 'refdom', 'v': {'kind': kind, 'mapping': 'none'}})
     return recs
@@ -607,7 +695,7 @@ def run(ctx):
     ctx.validate('TraceC10', scs, jvms=8)
     import json
     ctx.notes['distinct_nontrivial'] = len({json.dumps(r, sort_keys=True) for r in recs})
-    ctx.notes['by_driver'] = {d: sum(1 for r in recs if r['driver'] == d) for d in ('geom', 'pair', 'refdom')}
+    ctx.notes['by_driver'] = {d: sum(1 for r in recs if r['driver'] == d) for d in ('geom', 'pair', 'refdom', 'surfrel')}
     ctx.notes['tolerances'] = {'TolGeom': '2^-36 x (integer part of the compared numbers + 1), small integer factors per law'}
     return ctx.finish(rule=RULE, assumptions=[
         'reference points are dyadic (multiples of 1/8) at distance >= 1/8 from the cell boundary; Newton inversion is '
